@@ -639,6 +639,26 @@ def run(chk):
             if is_eq:
                 chk.violation(r_me, key, "%s: the loop ends on the equality test `%s` although `%s` and `%s` move towards each other inside it: when both move in one iteration they cross unequal, and the accesses they index leave the sequence" % (f["q"], ttext, a_, b_), f["file"], l_)
 
+    # ---- C20.stateinit: the first report step holds an object behind every shared member
+    r_si = chk.rule("C20.stateinit", "ScheduleState keeps most of its components behind ptr_member<T> (a shared_ptr that is dereferenced without a test by operator() / get()): Schedule::create_first gives every such member an object (`sched_state.<member>.update(...)`), so that no keyword handler or accessor of any report step - all later steps are copies of the first - dereferences a null pointer (SIGSEGV instead of a result or an exception)", floor=18)
+    six = chk.facts(["opm/input/eclipse/Schedule/Schedule.cpp"], files_re=r"^/repo/opm/input/eclipse/Schedule/ScheduleState\.hpp$")
+    srec = six.recs.get("Opm::ScheduleState")
+    cfs = [f for f in six.fns if f["q"] == "Opm::Schedule::create_first" and f.get("body")]
+    if srec is None or len(cfs) != 1:
+        raise core.AnalysisBroken("ScheduleState record / Schedule::create_first not found")
+    pmem = [f_["n"] for f_ in srec["fields"] if "ptr_member<" in (f_.get("t") or f_.get("ct") or "")]
+    given = set()
+    for n in walk(cfs[0]["body"]):
+        m_, o_ = meth(n)
+        if m_ == "update" and o_ is not None:
+            m2 = re.fullmatch(r"(\w+)\.(\w+)", show(strip(o_)))
+            if m2:
+                given.add(m2.group(2))
+    for mname in pmem:
+        chk.instance(r_si, mname, sample=dict(member=mname, initialised=mname in given))
+        if mname not in given:
+            chk.violation(r_si, mname, "Schedule::create_first never gives ScheduleState::%s an object: the member stays a null shared_ptr in every report step, and its accessor dereferences it without a test" % mname, cfs[0]["file"], cfs[0]["l"])
+
     r_cu = chk.rule("C20.cursor", "token cursors (an index compared with V.size(), used in V[idx] and advanced by the code): every V[idx] is preceded on every path by a test that establishes idx < V.size() since the last advance; where the end is tested with equality the cursor is never advanced from a state that may already be the end", floor=40)
     n_cursors = 0
     for f in fx.fns:
